@@ -23,24 +23,16 @@ def directStep (g j : Bytes) (t : RT) (d : Doc) : Doc :=
 
 /-- one iteration of the loop of `renameMapKeys` -/
 def fieldStep (g j : Bytes) (e : Bool) (t : RT) (d : Doc) : Doc :=
-  match e, t, hasMapUnder g d with
-  | true, .struct sub, false => renameMapKeys (.struct sub) d
-  | _, _, _ => directStep g j t d
+  if e && t.isStruct && !hasMapUnder g d then renameMapKeys t d else directStep g j t d
 
 theorem renameFields_nil (d : Doc) : renameFields [] d = d := rfl
 
 theorem renameFields_cons (g c j : Bytes) (e : Bool) (t : RT) (rest : List RField) (d : Doc) :
     renameFields ((g, c, j, e, t) :: rest) d = renameFields rest (fieldStep g j e t d) := by
-  cases e
-  · cases t <;> rfl
-  · cases t with
-    | struct sub =>
-      show renameFields rest (match true, RT.struct sub, hasMapUnder g d with
-        | true, .struct sub, false => renameFields sub (renameTop (renameMap sub) d)
-        | _, _, _ => directStep g j (RT.struct sub) d) = _
-      unfold fieldStep
-      cases hasMapUnder g d <;> rfl
-    | _ => rfl
+  cases t <;> cases e <;> rfl
+
+theorem fieldStep_direct (g j : Bytes) (t : RT) (d : Doc) :
+    fieldStep g j false t d = directStep g j t d := rfl
 
 theorem renameMapKeys_struct (fs : List RField) (d : Doc) :
     renameMapKeys (.struct fs) d = renameFields fs (renameTop (renameMap fs) d) := rfl
@@ -59,5 +51,145 @@ theorem renameValue_leaf (v : Value) : renameValue .leaf v = v := rfl
 theorem renameValue_struct_not_obj (fs : List RField) (v : Value) (h : ∀ m, v ≠ .obj m) :
     renameValue (.struct fs) v = v := by
   cases v <;> first | rfl | exact absurd rfl (h _)
+
+/-! ## 1. The old fragment -/
+
+theorem insertKey_self (k : Bytes) (v : Value) : (m : Doc) → KeysInc m → lookupKey k m = some v →
+    insertKey k v m = m
+  | [], _, h => by cases h
+  | (a, x) :: t, hs, h => by
+    have hs' := List.pairwise_cons.1 hs
+    by_cases e : k = a
+    · subst e
+      simp only [lookupKey, if_true, Option.some.injEq] at h
+      rw [insertKey_cons_eq, h]
+    · simp only [lookupKey, if_neg e] at h
+      have hl : lexLt a k = true := hs'.1 (k, v) (mem_of_lookupKey t h)
+      rw [insertKey_cons_gt k v a x t hl, insertKey_self k v t hs'.2 h]
+
+theorem keysInc_renameInto (rm : List (Bytes × Bytes)) : (d : Doc) → (acc : Doc) → KeysInc acc →
+    KeysInc (renameInto rm acc d)
+  | [], _, h => h
+  | kv :: rest, acc, h => by
+    rw [renameInto_cons]
+    exact keysInc_renameInto rm rest _ (insertKey_sorted _ _ _ h)
+
+theorem keysInc_renameTop (rm : List (Bytes × Bytes)) (d : Doc) : KeysInc (renameTop rm d) :=
+  keysInc_renameInto rm d [] List.Pairwise.nil
+
+theorem keysInc_nestStep (g j : Bytes) (t : RType) (d : Doc) (h : KeysInc d) :
+    KeysInc (nestStep g j t d) := by
+  unfold nestStep
+  split
+  · exact insertKey_sorted _ _ _ h
+  · exact h
+
+theorem renameMap_embedOldFields : (fs : List CV.RField) →
+    renameMap (embedOldFields fs) = CV.renameMap fs
+  | [] => rfl
+  | (g, c, j, t) :: rest => by
+    show renameMap ((g, c, j, false, embedOld t) :: embedOldFields rest) = _
+    simp only [renameMap, CV.renameMap, renameMap_embedOldFields rest]
+
+mutual
+/-- item 1: on the old fragment of types the repaired function is the old one (every document) -/
+theorem renameMapKeys_embedOld : (T : RType) → (d : Doc) →
+    renameMapKeys (embedOld T) d = CV.renameMapKeys T d
+  | .leaf, _ => rfl
+  | .struct fs, d => by
+    show renameFields (embedOldFields fs) (renameTop (renameMap (embedOldFields fs)) d) = _
+    rw [CV.renameMapKeys_struct, renameMap_embedOldFields]
+    exact renameFields_embedOld fs _ (keysInc_renameTop _ _)
+theorem renameFields_embedOld : (fs : List CV.RField) → (d : Doc) → KeysInc d →
+    renameFields (embedOldFields fs) d = renameNested fs d
+  | [], _, _ => rfl
+  | (g, c, j, t) :: rest, d, hd => by
+    show renameFields ((g, c, j, false, embedOld t) :: embedOldFields rest) d = _
+    rw [renameFields_cons, renameNested_cons, fieldStep_direct]
+    have hstep : directStep g j (embedOld t) d = nestStep g j t d := by
+      unfold directStep nestStep
+      cases hl : lookupKey (toName g j) d with
+      | none => cases t <;> rfl
+      | some v =>
+        cases t with
+        | leaf =>
+          show insertKey (toName g j) v d = d
+          exact insertKey_self _ _ _ hd hl
+        | struct sub =>
+          cases v with
+          | obj m =>
+            show insertKey (toName g j) (.obj (renameMapKeys (embedOld (.struct sub)) m)) d = _
+            rw [renameMapKeys_embedOld (.struct sub) m]
+          | _ =>
+            show insertKey (toName g j) _ d = d
+            exact insertKey_self _ _ _ hd hl
+    rw [hstep]
+    exact renameFields_embedOld rest _ (keysInc_nestStep g j t d hd)
+end
+
+/-! ## 5. The reproducer of F40 -/
+
+section Reproducer
+private def sBase : Bytes := [0x42, 0x61, 0x73, 0x65]   -- "Base"
+private def sID : Bytes := [0x49, 0x44]   -- "ID"
+private def s_ident : Bytes := [0x69, 0x64, 0x65, 0x6E, 0x74]   -- "ident"
+private def sCreated : Bytes := [0x43, 0x72, 0x65, 0x61, 0x74, 0x65, 0x64]   -- "Created"
+private def sName : Bytes := [0x4E, 0x61, 0x6D, 0x65]   -- "Name"
+private def s_name : Bytes := [0x6E, 0x61, 0x6D, 0x65]   -- "name"
+private def sIn : Bytes := [0x49, 0x6E]   -- "In"
+private def s_inner : Bytes := [0x69, 0x6E, 0x6E, 0x65, 0x72]   -- "inner"
+private def sN : Bytes := [0x4E]   -- "N"
+private def s_num : Bytes := [0x6E, 0x75, 0x6D]   -- "num"
+private def sList : Bytes := [0x4C, 0x69, 0x73, 0x74]   -- "List"
+private def s_list : Bytes := [0x6C, 0x69, 0x73, 0x74]   -- "list"
+private def sM : Bytes := [0x4D]   -- "M"
+private def s_k : Bytes := [0x6B]   -- "k"
+private def s_b1 : Bytes := [0x62, 0x31]   -- "b1"
+private def s_n : Bytes := [0x6E]   -- "n"
+private def n (i : Int) : Value := .num (.int i)
+private def created : Value := .time 1700000000000000000 0
+
+/-- `type Inner struct { N int `clover:"num"` }` -/
+private def tInner : RT := .struct [(sN, s_num, [], false, .leaf)]
+/-- `type Base struct { ID string `clover:"ident"`; Created time.Time }` -/
+private def tBase : RT := .struct [(sID, s_ident, [], false, .leaf), (sCreated, [], [], false, .leaf)]
+/-- `type Outer struct { Base; Name string `clover:"name"`; In Inner `clover:"inner"`;
+      List []Inner `clover:"list"`; M map[string]Inner }` -/
+private def tOuter : RT := .struct [
+  (sBase, [], [], true, tBase),
+  (sName, s_name, [], false, .leaf),
+  (sIn, s_inner, [], false, tInner),
+  (sList, s_list, [], false, .list tInner),
+  (sM, [], [], false, .map tInner)]
+
+/-- the document `NewDocumentOf(&Outer{…})` (the fields of `Base` flattened into it) comes back with
+    every key under the name `encoding/json` reads: the promoted field `ident ↦ ID`, and `num ↦ N`
+    inside the nested struct, inside the elements of the slice and inside the values of the map -/
+example :
+    renameMapKeys tOuter
+      [(sCreated, created), (sM, .obj [(s_k, .obj [(s_num, n 5)])]), (s_ident, .str s_b1),
+       (s_inner, .obj [(s_num, n 1)]), (s_list, .arr [.obj [(s_num, n 3)], .obj [(s_num, n 4)]]),
+       (s_name, .str s_n)]
+    = [(sCreated, created), (sID, .str s_b1), (sIn, .obj [(sN, n 1)]),
+       (sList, .arr [.obj [(sN, n 3)], .obj [(sN, n 4)]]), (sM, .obj [(s_k, .obj [(sN, n 5)])]),
+       (sName, .str s_n)] := by rfl
+
+/-- a struct-typed EMBEDDED field that was NOT flattened (a map sits under its Go name: e.g. a document
+    written by hand): treated like a direct field -/
+example :
+    renameMapKeys (.struct [(sBase, [], [], true, tBase)])
+      [(sBase, .obj [(s_ident, .str s_b1)]), (s_ident, n 1)]
+    = [(sBase, .obj [(sID, .str s_b1)]), (s_ident, n 1)] := by rfl
+
+/-- the renaming of promoted fields is a SECOND pass over the same map, not simultaneous with the
+    renaming of the direct fields: a direct field read under a name that is the stored name of a
+    promoted field is moved again (hypothesis `hcross` of `renameMapKeys_embedded`).  Direct field
+    `Name` stored under "name" and read under "ident"; promoted field `ID` stored under "ident": the
+    value of `Name` ends under "ID" and the value of `ID` is lost. -/
+example :
+    renameMapKeys (.struct [(sBase, [], [], true, tBase), (sName, s_name, s_ident, false, .leaf)])
+      [(s_ident, .str s_b1), (s_name, .str s_n)]
+    = [(sID, .str s_n)] := by rfl
+end Reproducer
 
 end CV.U2
